@@ -41,6 +41,7 @@ type zzRecQueue struct {
 	inits    []*queue.InitOptions
 	closed   int
 	addErr   error
+	onRead   func() // runs when Read is entered (a Read that blocks before it returns)
 }
 
 func (q *zzRecQueue) Close() error { q.closed++; return nil }
@@ -61,6 +62,9 @@ func (q *zzRecQueue) Replace(e *queue.Elem) (bool, error) {
 	return true, nil
 }
 func (q *zzRecQueue) Read(pids []packets.PacketID) ([]*queue.Elem, error) {
+	if q.onRead != nil {
+		q.onRead()
+	}
 	if q.script == nil {
 		return nil, queue.ErrClosed
 	}
